@@ -26,7 +26,7 @@ class SPEC:
     # the driver's `mux scenario` line is the EXPECTATION (what must hold), not a prediction of the schedule-dependent
     # observation: impl and model lines are never textually equal; the verdict is the `chk` line (see check.replay)
     replay_compare_model = False
-    rule = ("op `mux scenario <transport> <seed> <stopmid> <clients> [shared=<r>]`: one scenario on the REAL collector "
+    rule = ("op `mux scenario <transport> <seed> <stopmid> <clients> [shared=<r>] [buf=<n>]`: one scenario on the REAL collector "
             "(collector.InitCollectingProcess + Start() on 127.0.0.1:0, transport tcp | udp | tls with a certificate minted at "
             "harness start), binary built with -race and run with GORACE=halt_on_error=0 log_path=..., ONE PROCESS PER "
             "SCENARIO. C raw clients (net.Dial / tls.Dial, own IPFIX encoder) run concurrently; client i uses observation "
@@ -34,7 +34,15 @@ class SPEC:
             "one data record carrying domain and number again - in the scenarios whose seed is a multiple of 4, one in three, some data "
             "messages repeat that record 130, 600 or 5000 times: 4.8 KB and 40 KB messages over TCP/TLS, past the reader's 4096-byte "
             "buffer; at most 1220 bytes over UDP), then closes (c), writes half a message and closes (a), stays "
-            "connected (i) or writes half a message and stays connected (h). With `shared=<r>` ALL clients export in observation "
+            "connected (i) or writes half a message and stays connected (h). A client `<n>w<ms>` is a SLOW session: it sends the first "
+            "max(1, n/2) of its n messages, stays connected and idle for <ms> milliseconds (6000 / 11000: one TLS scenario each in the "
+            "quick tier, a dozen over TCP and TLS in the thorough tier; these scenarios are started first and run beside the others), "
+            "then sends the rest and closes - the collector arms no deadline on a connection (Props/C12 tie_collector_arms_no_deadline), "
+            "so everything must be delivered exactly as for a closing client, which is how the Lean driver reads the token. "
+            "`buf=<n>` (0 | 512 | 1024 | 65535; default and over UDP always 65535) is the collector's CollectorInput.MaxBufferSize: it sizes "
+            "the UDP receive buffer and nothing else, so over TCP/TLS the expectation does not depend on it (the Lean driver accepts and "
+            "ignores the token); every tcp/tls scenario draws it at random, and 3 (quick) / 12 (thorough) `bigmsg` scenarios combine 512 or "
+            "1024 with a seed that is a multiple of 4, i.e. with messages of 1 KB, 4.8 KB and 40 KB. With `shared=<r>` ALL clients export in observation "
             "domain 1 with template id 256 - one stored template in the collector - and every client sends the template set "
             "again as every r-th of its messages (an ordinary numbered message of its connection), so that template "
             "(re-)definitions by one exporter run concurrently with data decoding by the others under the race detector; the "
@@ -125,8 +133,37 @@ def sseed(rng):
 
 
 def op(t, seed, stopmid, clients, shared=0):
+    """clients: (n, behaviour) with behaviour c | a | i | h | s | w<ms>"""
     return "mux scenario %s %d %s %s%s" % (t, seed, "-" if stopmid is None else str(stopmid), ",".join("%d%s" % c for c in clients),
                                          " shared=%d" % shared if shared else "")
+
+
+BUFS = [0, 512, 1024, 65535]          # CollectorInput.MaxBufferSize values (harness-mux `buf=<n>`)
+SMALL_BUFS = [512, 1024]              # smaller than the 1060 / 4820 / 40020-byte messages of the seeds that are multiples of 4
+
+
+def with_buf(opline, buf):
+    return "%s buf=%d" % (opline, buf)
+
+
+def gen_slow(rng, t, ms):
+    """a session that stays idle for ms milliseconds between two of its messages (client `<n>w<ms>`), among ordinary
+    clients that come and go meanwhile (one of them may stay connected): nothing may be cut, everything is delivered"""
+    nclients = rng.randint(3, 6)
+    clients = [(rng.randint(1, 20), "c") for _ in range(nclients)]
+    clients[rng.randrange(nclients)] = (rng.randint(2, 16), "w%d" % ms)
+    if rng.random() < 0.3:
+        j = rng.randrange(nclients)
+        if not clients[j][1].startswith("w"):
+            clients[j] = (clients[j][0], rng.choice("ih"))
+    return op(t, sseed(rng), None, clients)
+
+
+def gen_bigmsg(rng, t):
+    """large messages (seed a multiple of 4: 1 KB, 4.8 KB, 40 KB, every client sends at least 8 messages and so at
+    least one of each size) to a tcp/tls collector created with a SMALL MaxBufferSize - an option of the UDP path"""
+    clients = [(rng.randint(8, 24), "c") for _ in range(rng.randint(2, 5))]
+    return with_buf(op(t, rng.randrange(1, 1 << 28) * 4, None, clients), rng.choice(SMALL_BUFS))
 
 
 def gen_shared(rng, t, nclients, lo, hi, kind):
@@ -213,6 +250,19 @@ def gen_ops(rng, tier):
         else:
             for _ in range(2):
                 ops.append((gen_shared(rng, t, rng.randint(4, 8), 30, 60, "shared"), "shared"))
+    # (from here on: generated after everything above, which stays the same for a given seed)
+    # MaxBufferSize is an option of the UDP path: every tcp/tls scenario above gets one of its values at random ...
+    ops = [(with_buf(o, rng.choice(BUFS)), k) if o.split(" ")[2] != "udp" else (o, k) for o, k in ops]
+    # ... and some scenarios are sure to combine a small one with large messages
+    for j in range(12 if tier == "thorough" else 3):
+        ops.append((gen_bigmsg(rng, ("tcp", "tls")[j % 2]), "bigmsg"))
+    # slow sessions: idle for 6 s / 11 s between two messages (longer than any handshake- or read-timeout one might arm)
+    if tier == "thorough":
+        slow = [(t, ms) for t in ("tls", "tcp") for ms in (6000, 11000)] * 3
+    else:
+        slow = [("tls", 6000), ("tls", 11000)]
+    for t, ms in slow:
+        ops.append((with_buf(gen_slow(rng, t, ms), rng.choice(BUFS)), "slow"))
     return ops
 
 
@@ -282,6 +332,9 @@ def run(ctx):
     kinds = [g[1] for g in gen]
     os.makedirs(os.path.join(ctx.workdir, "race"), exist_ok=True)
     workers = min(ctx.cores, 12) if ctx.tier == "thorough" else min(8, ctx.cores)
+    # the slow-session scenarios sleep for most of their 6 / 11 s: they are started first, on workers of their own
+    nslow = sum(1 for k in kinds if k == "slow")
+    order = sorted(range(len(ops)), key=lambda i: (kinds[i] != "slow", i))
     dist = G.Counter()
     notes = []
 
@@ -296,8 +349,10 @@ def run(ctx):
             return o, retried, first
         return o, retried, None
 
-    with concurrent.futures.ThreadPoolExecutor(max_workers=workers) as ex:
-        results = list(ex.map(job, range(len(ops))))
+    results = [None] * len(ops)
+    with concurrent.futures.ThreadPoolExecutor(max_workers=workers + nslow) as ex:
+        for i, res in zip(order, ex.map(job, order)):
+            results[i] = res
     shutil.rmtree(os.path.join(ctx.workdir, "race"), ignore_errors=True)
 
     model = check.run_ops(ctx.driver, ops)[0]
@@ -313,6 +368,11 @@ def run(ctx):
         dist.add("transport:" + t)
         dist.add("kind:" + kinds[i])
         dist.add("clients:" + bucket(nclients, [1, 2, 4, 8, 16, 32, 64]))
+        buf = next((tok[4:] for tok in ops[i].split(" ")[6:] if tok.startswith("buf=")), None)
+        if buf is not None:
+            dist.add("buf:" + buf)
+            if int(buf) in SMALL_BUFS and int(ops[i].split(" ")[3]) % 4 == 0:
+                dist.add("small-buf+large-messages")
         if retried:
             dist.add("retried")
             dist.add("retry-because:" + (kv(first, "to") or first.split(" ")[0])[:40])
@@ -375,7 +435,7 @@ def run(ctx):
         d["explained_by_predicate_failure"] = d["ops"][0] in fail_ops
     notes.append("PARTIAL: per-connection FIFO / exactly-once / conn-count / stop theorems are proved of Model/Mux.lean for all schedules; "
                  "leaks, Stop() latency and races are observed on the real collector (race detector, goroutine stacks, re-bind), not proved")
-    notes.append("%d scenarios, one harness process each, %d in parallel; largest Stop() latency observed %d ms (bound 2000)" % (len(ops), workers, max_stop))
+    notes.append("%d scenarios, one harness process each, %d in parallel (+ %d slow-session scenarios beside them); largest Stop() latency observed %d ms (bound 2000)" % (len(ops), workers, nslow, max_stop))
     notes.append("lock facts the theorems speak about (driver `mux facts`): " + (facts[0] if facts else "missing"))
     notes.append("unlocked accesses on the current tree are the klog reads of cp.netAddress right after updateAddress in "
                  "startTCPServer / startUDPServer (see `unguarded=` above): reads by the goroutine that wrote the field (Start), "
